@@ -276,8 +276,13 @@ func runCaseWith(c *CaseDesc, build func(*caseRun) *nject.Collection) []string {
 			return names[s]
 		}
 		for _, vp := range nject.VerifContents(coll) {
-			r.logf("e %d origin=%d rep=%d bef=%d aft=%d nf=%d", r.idxOf(vp), code(vp.Origin), code(vp.ReplaceByName),
-				code(vp.InsertBeforeName), code(vp.InsertAfterName), b2i(vp.NonFinal))
+			idx := r.idxOf(vp)
+			gen, inf := 0, 0
+			if q := r.c.provOf(idx); q != nil && r.isGenerator(vp.ID, idx) {
+				gen, inf = 1, b2i(q.NonFinal)
+			}
+			r.logf("e %d origin=%d rep=%d bef=%d aft=%d nf=%d gen=%d inf=%d", idx, code(vp.Origin), code(vp.ReplaceByName),
+				code(vp.InsertBeforeName), code(vp.InsertAfterName), b2i(vp.NonFinal), gen, inf)
 		}
 	}
 	invT := reflect.FuncOf(typesOf(c.InvIn), typesOf(c.InvOut), false)
@@ -406,6 +411,7 @@ func runEditPair(c *CaseDesc) []string {
 	for _, id := range order {
 		q := c.provOf(id).clone()
 		q.Replace, q.Before, q.After = "", "", ""
+		q.Gen, q.GenNF = false, false // the hand-written twin lists the providers themselves
 		c2.Provs = append(c2.Provs, q)
 	}
 	l2 := runCase(c2)
